@@ -4,7 +4,7 @@
 From PGV Require Export Base.Bytes Base.GoStr Base.GoNum Base.Utf8.
 From PGV Require Export Extracted.SourceConst.
 From PGV Require Export Model.RuleText Model.Value Model.Clause Model.Rules Model.Walk.
-From PGV Require Export Spec.SizeSpec.
+From PGV Require Export Spec.SizeSpec Spec.FormatSpec.
 Open Scope Z_scope.
 
 Inductive entry :=
@@ -80,7 +80,8 @@ Inductive specq :=
 | SNone
 | SNoPanic                                                   (* C13 *)
 | SSize (r : srule) (lo hi : Z) (v : val) (marker : str)     (* C01: marker clause present iff measure outside *)
-| SVerdict (expect_violated : bool) (marker : str).          (* the independent recogniser's verdict, computed by the case *)
+| SFmt (f : fspec) (v : val) (marker : str)                  (* C05: marker clause present iff v outside the language *)
+| SVerdict (expect_violated : bool) (marker : str).          (* a verdict fixed by the case *)
 
 Definition spec_ok (q : specq) (o : obs) : bool :=
   match q with
@@ -91,6 +92,11 @@ Definition spec_ok (q : specq) (o : obs) : bool :=
     | Some x => sizeable v && Bool.eqb (has_marker o marker) (negb (in_set r lo hi x))
                 && (count_marker o marker <=? 1)%nat
     | None => false     (* the generator must stay inside the property's domain *)
+    end
+  | SFmt f v marker =>
+    match in_language f v with
+    | Some b => Bool.eqb (has_marker o marker) (negb b) && (count_marker o marker <=? 1)%nat
+    | None => false
     end
   | SVerdict b marker => Bool.eqb (has_marker o marker) b && (count_marker o marker <=? 1)%nat
   end.
